@@ -49,3 +49,7 @@ def neighbours(case, rng):
 
 def signature(case, v):
     return cc.signature_for(case, v)
+
+
+def on_crash(r, v):
+    return cc.on_crash_terminates(r, v)
